@@ -33,7 +33,7 @@ inductive Res (α : Type) where
   | ok (a : α)
   | err (e : Err)
   | unmodelled
-  deriving Repr
+  deriving Repr, DecidableEq
 
 namespace Res
 def bind {α β} (r : Res α) (f : α → Res β) : Res β :=
